@@ -21,6 +21,7 @@ pub fn describe(script: &Script) -> monlib::Value {
             "go": Gui::Go(c.go.clone()).text(),
             "stop_after_us": c.stop_after_us,
             "during": c.during.iter().map(|g| g.text()).collect::<Vec<_>>(),
+            "follow_ponder": c.follow_ponder, "sibling": c.sibling, "late_stop": c.late_stop,
         })).collect::<Vec<_>>()
     })
 }
@@ -39,7 +40,10 @@ pub fn random_script(rng: &mut StdRng, starts: &mut gen::Starts, in_process: boo
         } else { None };
         let root = cur.clone().unwrap();
         let (go, stop) = random_go(rng, &root.pos, true);
-        cycles.push(Cycle { new_game: rng.gen_bool(0.15), position, go, stop_after_us: stop, extra: vec![], during: random_during(rng) });
+        // run-time decisions: continue the game along the engine's own prediction, or re-send the game
+        // with one earlier move changed (same length, same last move); sometimes a late stop
+        let kind = rng.gen_range(0..100);
+        cycles.push(Cycle { new_game: rng.gen_bool(0.15), position, go, stop_after_us: stop, extra: vec![], during: random_during(rng), follow_ponder: i > 0 && kind < 20, sibling: i > 0 && (20..30).contains(&kind), late_stop: rng.gen_bool(0.15) });
         roots.push(root);
     }
     // Poll intervals below the node count of a depth-1 iteration (at most 219 negamax nodes) would let a
@@ -93,23 +97,55 @@ pub fn judge(root: &Root, c: &Cycle, out: &Outcome, rep: &mut Report, replay: &m
 }
 
 pub fn run_script(d: &mut dyn Driver, script: &Script, roots: &[Root], rep: &mut Report, via: &str, c16_too: bool) -> bool {
+    let mut rng = gen::rng(monlib::fnv(format!("{:?}", script.cycles.len()).as_bytes()), roots.len() as u64, 77);
+    run_script_rng(d, script, roots, rep, via, c16_too, &mut rng)
+}
+
+pub fn run_script_rng(d: &mut dyn Driver, script: &Script, roots: &[Root], rep: &mut Report, via: &str, c16_too: bool, rng: &mut StdRng) -> bool {
     let replay = json!({"kind":"c07-session","via":via,"script":describe(script)});
     set_poll(script.poll_interval);
     rep.count(&format!("sessions_poll_interval_{}", script.poll_interval));
     let mut gos = 0u64;
     let mut bestmoves = 0u64;
     let mut ok = true;
+    let mut cur_cmd: Option<(Option<String>, Vec<String>)> = None;
+    let mut cur_root: Option<Root> = None;
+    let mut last_answer: (Option<String>, Option<String>) = (None, None);
+    let mut diverged = false;
     for (i, c) in script.cycles.iter().enumerate() {
         gos += 1;
-        match run_cycle(d, c) {
+        let mut c = c.clone();
+        // run-time variants of the position command
+        let mut dynamic: Option<(Option<String>, Vec<String>)> = None;
+        if let Some((fen, moves)) = &cur_cmd {
+            if c.follow_ponder {
+                if let (Some(b), Some(p)) = (&last_answer.0, &last_answer.1) {
+                    let mut m2 = moves.clone();
+                    m2.push(b.clone());
+                    m2.push(p.clone());
+                    if position_of(fen, &m2).map_or(false, |(pos, _)| !pos.legal_moves().is_empty()) { dynamic = Some((fen.clone(), m2)); rep.count("cycles_following_bestmove_and_ponder_move"); }
+                }
+            } else if c.sibling {
+                if let Some(v) = sibling_moves(rng, fen, moves) { dynamic = Some((fen.clone(), v)); rep.count("cycles_with_a_sibling_move_list"); }
+            }
+        }
+        if let Some(dy) = dynamic { c.position = Some(dy); c.go.searchmoves.clear(); diverged = true; } else if c.position.is_some() { diverged = false; } else if diverged { c.go.searchmoves.clear(); }
+        if let Some((f, m)) = &c.position {
+            cur_cmd = Some((f.clone(), m.clone()));
+            cur_root = position_of(f, m).map(|(pos, history)| Root { pos, history });
+        }
+        let root = match (&cur_root, diverged) { (Some(r), _) => r.clone(), _ => roots[i].clone() };
+        match run_cycle(d, &c) {
             CycleResult::Answered(out) => {
                 bestmoves += 1;
-                judge(&roots[i], c, &out, rep, &replay, via);
-                if c16_too { c16::judge_search(&roots[i].pos, &out, rep, &replay); }
+                judge(&root, &c, &out, rep, &replay, via);
+                if c16_too { c16::judge_search(&root.pos, &out, rep, &replay); }
+                last_answer = (out.best.clone(), out.ponder.clone());
+                if c.late_stop { let _ = d.send(&Gui::Stop); rep.count("late_stops_after_the_answer"); }
             }
             CycleResult::Watchdog => { rep.inconclusive("watchdog fired while the search thread was alive"); ok = false; break; }
             CycleResult::Dead(e) => {
-                rep.violation(&format!("engine-died:{}", c.go.kind()), format!("cycle {} (`{}` on {}): {}", i, Gui::Go(c.go.clone()).text(), roots[i].pos.to_fen(), e), replay.clone());
+                rep.violation(&format!("engine-died:{}", c.go.kind()), format!("cycle {} (`{}` on {}): {}", i, Gui::Go(c.go.clone()).text(), root.pos.to_fen(), e), replay.clone());
                 ok = false;
                 break;
             }
@@ -198,7 +234,7 @@ pub fn replay(case: &monlib::Value, rep: &mut Report) {
                 _ => i += 1,
             }
         }
-        cycles.push(Cycle { new_game: c["ucinewgame"].as_bool().unwrap_or(false), position, go: g, stop_after_us: c["stop_after_us"].as_u64(), extra: vec![], during: c["during"].as_array().map(|a| a.iter().filter_map(|t| match t.as_str() { Some("ucinewgame") => Some(Gui::NewGame), Some("isready") => Some(Gui::IsReady), Some("uci") => Some(Gui::Uci), Some("debug on") => Some(Gui::Debug(true)), Some("debug off") => Some(Gui::Debug(false)), _ => None }).collect()).unwrap_or_default() });
+        cycles.push(Cycle { new_game: c["ucinewgame"].as_bool().unwrap_or(false), position, go: g, stop_after_us: c["stop_after_us"].as_u64(), extra: vec![], during: c["during"].as_array().map(|a| a.iter().filter_map(|t| match t.as_str() { Some("ucinewgame") => Some(Gui::NewGame), Some("isready") => Some(Gui::IsReady), Some("uci") => Some(Gui::Uci), Some("debug on") => Some(Gui::Debug(true)), Some("debug off") => Some(Gui::Debug(false)), _ => None }).collect()).unwrap_or_default(), follow_ponder: c["follow_ponder"].as_bool().unwrap_or(false), sibling: c["sibling"].as_bool().unwrap_or(false), late_stop: c["late_stop"].as_bool().unwrap_or(false) });
         roots.push(cur.clone().expect("first cycle has a position"));
     }
     let script = Script { cycles, poll_interval: sc["poll_interval"].as_u64().unwrap_or(0) };
